@@ -122,7 +122,7 @@ class SObject(object):
         self.attrs = attrs
 
 
-FACT = z3.Function('fact', z3.IntSort(), z3.IntSort())
+FACT = z3.Function('fact@spec', z3.IntSort(), z3.IntSort())      # = the contract-language spec function `fact`
 _fresh = itertools.count()
 
 
@@ -236,6 +236,30 @@ class Obligation(object):
 
     def __init__(self, name, hyps, goal, kind, line=0):
         self.name, self.hyps, self.goal, self.kind, self.line = name, list(hyps), goal, kind, line
+
+
+def lemma_as_axiom(name, lc):
+    """the universally quantified statement of a proved ghost lemma over scalar arguments:
+    forall args. requires ==> ensures   (generated from the lemma's own contract text, so it cannot drift from what
+    the lemma proves; the lemma is discharged as a contract of its own)"""
+    if lc.get('ghost_args') or any(t not in ('int', 'real') for t in lc['args'].values()):
+        raise Unsupported('lemma %s cannot be used as an axiom: non-scalar or ghost arguments' % name)
+    if any('result' in {x.id for x in ast.walk(ast.parse(e, mode='eval')) if isinstance(x, ast.Name)} for e in lc['ensures']):
+        raise Unsupported('lemma %s: ensures mentions result' % name)
+    ren = {a: '%s_%s' % (a, name.split('.')[-1]) for a in lc['args']}
+
+    class R(ast.NodeTransformer):
+        def visit_Name(self, n):
+            return ast.copy_location(ast.Name(id=ren.get(n.id, n.id), ctx=n.ctx), n)
+
+    def rn(txt):
+        return ast.unparse(R().visit(ast.parse(txt.strip(), mode='eval')))
+    body = ' and '.join('(%s)' % rn(e) for e in lc['ensures'])
+    if lc.get('requires'):
+        body = 'implies(%s, %s)' % (' and '.join('(%s)' % rn(r) for r in lc['requires']), body)
+    for a in reversed(list(lc['args'])):
+        body = 'forall(%s, %s)' % (ren[a], body)
+    return body
 
 
 class Path(object):
@@ -1005,6 +1029,7 @@ class Gen(object):
                     raise Unsupported('no contract of %s for %s=%s' % (qual, nm, v.name))
                 qual = alt[0]
                 c = self.registry[qual]
+        explicit_kw, auto_ghost = {}, {}
         for kw in n.keywords:
             if kw.arg is None:
                 v = self.expr(kw.value, path)
@@ -1013,10 +1038,24 @@ class Gen(object):
                     raise Unsupported('**kwargs at a call')
                 actual[kwname[0]] = v          # **kwargs passed through unchanged
                 continue
+            if kw.arg not in names and any(c['args'][nm] == 'kwargs' for nm in names):
+                explicit_kw[kw.arg] = self.expr(kw.value, path)      # lands in the callee's **kwargs
+                continue
             actual[kw.arg] = self.expr(kw.value, path)
         for nm in names:
             if nm not in actual and c['args'][nm] == 'kwargs':
-                actual[nm] = SKwargs({k: self.spec_value(v) for k, v in c.get('kwargs', {}).items()})
+                spec_kw = c.get('kwargs', {})
+                if set(spec_kw) != set(explicit_kw):
+                    raise Unsupported('call of %s passes keywords %s but its contract is verified for %s'
+                                      % (qual, sorted(explicit_kw), sorted(spec_kw)))
+                for k, v in spec_kw.items():
+                    if not (isinstance(v, str) and v.startswith('$')):
+                        # a keyword fixed by the callee's contract: the call must pass exactly that constant
+                        if not (z3.is_expr(explicit_kw[k]) and z3.simplify(explicit_kw[k]).eq(z3.simplify(self.spec_value(v)))):
+                            raise Unsupported('keyword %s of %s is fixed to %r by its contract' % (k, qual, v))
+                        continue
+                    auto_ghost[v[1:]] = explicit_kw[k]               # the ghost that names this keyword's value
+                actual[nm] = SKwargs(dict(explicit_kw))
                 continue
             if nm not in actual:
                 d = c.get('defaults', {}).get(nm)
@@ -1030,10 +1069,13 @@ class Gen(object):
         # ghost (universally quantified) inputs of the callee are chosen by the caller's contract
         binds = self.c.get('ghost_bind', {}).get(qual, {})
         for g, t in c.get('ghost_args', {}).items():
-            if g not in binds:
+            if g in auto_ghost:
+                v = auto_ghost[g]
+            elif g not in binds:
                 raise Unsupported('ghost argument %s of %s is not bound by the caller contract' % (g, qual))
-            v = self.sterm(ast.parse(binds[g], mode='eval').body, path.env)
-            actual[g] = to_real(v) if t == 'real' else v
+            else:
+                v = self.sterm(ast.parse(binds[g], mode='eval').body, path.env)
+            actual[g] = to_real(v) if t == 'real' and z3.is_expr(v) else v
         sub = Gen(None, c, self.registry, qual.rsplit('.', 1)[0])
         sub.specfuncs = dict(self.specfuncs)
         sub.entry_env = actual
@@ -1538,6 +1580,8 @@ class Gen(object):
             self.specfuncs[name] = SpecFunc(name + '@spec', [sort_of(s) for s in argsorts], sort_of(ret))
         for txt in c.get('axioms', []):
             hyps.append(self.spec(txt, env))
+        for lname in c.get('uses_lemmas', []):
+            hyps.append(self.spec(lemma_as_axiom(lname, self.registry[lname]), env))
         for txt in c.get('requires', []):
             hyps.append(self.spec(txt, env))
         self.pre_hyps = list(hyps)
